@@ -188,6 +188,9 @@ def document(case):
 
 
 # ------------------------------------------------------------------------------ oracle
+SNAPSHOT_OWNERS = {}  # id(nested object) -> (id(reference placeholder), path): reset per document
+
+
 def compare(actual, expected, eager_seen, problems, path):
     """actual: what the constructor recorded; expected: safe_load of the placeholder text."""
     import vplug
@@ -196,6 +199,10 @@ def compare(actual, expected, eager_seen, problems, path):
         if not isinstance(actual, vplug.Snapshot) or actual.tag != expected["__nested__"]:
             problems.append("%s: expected an object built by !%s, got %r" % (path, expected["__nested__"], actual))
             return
+        # every tag written in the document builds an object of its own (an alias, and only an alias, shares one)
+        owner = SNAPSHOT_OWNERS.setdefault(id(actual), (id(expected), path))
+        if owner[0] != id(expected):
+            problems.append("%s: the object built for this !%s is the very object built for the tag at %s" % (path, expected["__nested__"], owner[1]))
         want_args, want_kwargs = [], {}
         if expected["form"] == "map":
             want_kwargs = expected["value"]
@@ -331,6 +338,13 @@ def execute(case, result):
         problems.append("extra section digested %d times" % len(vplug.EXTRA))
     if not isinstance(pipeline, list) or len(pipeline) != n:
         return [("pipeline section gave %r, expected a list of %d objects\n%s" % (pipeline, n, text), None)]
+    SNAPSHOT_OWNERS.clear()
+    # every element was constructed in this load, once, last to first
+    if [id(o) for o in log] != [id(o) for o in reversed(pipeline)]:
+        problems.append("the objects constructed by this load %r are not the pipeline's elements last to first %r"
+                        % ([type(o).__name__ for o in log], [type(o).__name__ for o in reversed(pipeline)]))
+    else:
+        result.count("construction_logs_matching_the_pipeline")
     eager_seen = []
     for i, (obj, e) in enumerate(zip(pipeline, case["elements"])):
         want = "VPool" if e["cls"] == "VPoolNow" else e["cls"]
@@ -412,6 +426,6 @@ def run_shard(spec):
 def finish(total, tier):
     for name in ("documents_valid", "documents_with_failing_constructor", "elements_tag_map", "elements_tag_list", "elements_tag_bare",
                  "elements_type_map", "nested_eager_tags_checked", "tails_built_while_reading", "pipelines_compared_with_rshift",
-                 "extra_sections_digested", "elements_with_nested_type_helper", "failing_constructor_raising_KeyError", "elements_with_merge_key", "elements_whose_truth_value_is_false", "type_elements_named_below_a_class", "pipelines_of_more_than_1000_elements"):
+                 "extra_sections_digested", "elements_with_nested_type_helper", "failing_constructor_raising_KeyError", "elements_with_merge_key", "elements_whose_truth_value_is_false", "type_elements_named_below_a_class", "pipelines_of_more_than_1000_elements", "construction_logs_matching_the_pipeline"):
         if not total.counters.get(name) and not total.violations:
             total.inconc("monitor never observed: " + name)
